@@ -27,7 +27,11 @@ TinyPool == PlainPool \cup {r \in SimplePool : (r.ps = {<<2>>} /\ r.p = <<1>>) \
 Base1 == {<<r>> : r \in (IF Tier = "quick" THEN TinyPool ELSE ValidPool)}
 Base2 == {<<r1, r2>> : <<r1, r2>> \in {t \in PlainPool \X PlainPool :
               LexLT(t[1].p, t[2].p) /\ Construct(<<t[1], t[2]>>, D, TRUE).out = Ok}}
-Bases == IF BaseMode = "singles" THEN Base1 ELSE Base1 \cup Base2
+NBase == Cardinality({j \in 1..Len(hist) : hist[j].k = "new"})
+\* "bridge": a two-record converter first, then single records -- a later record may bridge the two earlier ones
+Bases == IF BaseMode = "singles" THEN Base1
+         ELSE IF BaseMode = "bridge" THEN (IF NBase = 0 THEN Base2 ELSE Base1)
+         ELSE Base1 \cup Base2
 FollowPool == IF Tier = "quick" THEN {r \in PlainPool : r.p = <<1>>} ELSE SimplePool
 
 \* remappings over the names plus one unknown string
@@ -42,7 +46,6 @@ AllSubsets == SUBSET (PNames \cup {<<9>>})
 Subsets == IF Tier = "quick" THEN {S \in AllSubsets : Cardinality(S) <= 1 \/ S = PNames \cup {<<9>>} \/ S = {<<1>>, <<9>>}} ELSE AllSubsets
 
 Derived == Len(hist) > 0 /\ \E j \in 1..Len(hist) : hist[j].k \notin {"new", "add"}
-NBase == Cardinality({j \in 1..Len(hist) : hist[j].k = "new"})
 MCNext ==
   \/ /\ ~Derived /\ NBase < MaxBase /\ Len(convs) = NBase
      /\ \E rs \in Bases : ANew(rs, D)
